@@ -45,6 +45,31 @@ def activate (st : SState) (s : Sender) (frontierHeight : Nat) (id : Nat) : Opti
       if sp.activated then none                     -- ErrAlreadyActivated
       else some (⟨id, true, frontierHeight + Gen.SporkMinHeightDelay⟩ :: st.filter (·.id ≠ id))
 
+/-- The same three definitions with the community key's window `[w.1, w.2)` as a parameter. The window is a pair of
+    package variables of the real code (definition.CommunitySporkAddressStartHeight / …EndHeight); the mainnet values
+    (`mainnetWindow`, regenerated) cannot be reached on a test chain, so the correspondence stream runs the real
+    contract with a window of a few momentums and the driver evaluates these. `createW mainnetWindow = create` and
+    `activateW mainnetWindow = activate` hold by `rfl` (Props/C17). -/
+def authorisedW (w : Nat × Nat) (s : Sender) (frontierHeight : Nat) : Bool :=
+  match s with
+  | .sporkKey => true
+  | .community => w.1 ≤ frontierHeight && frontierHeight < w.2
+  | .other => false
+
+def mainnetWindow : Nat × Nat := (Gen.CommunitySporkAddressStartHeight, Gen.CommunitySporkAddressEndHeight)
+
+def createW (w : Nat × Nat) (st : SState) (s : Sender) (frontierHeight : Nat) (id : Nat) : Option SState :=
+  if !authorisedW w s frontierHeight then none
+  else some (⟨id, false, 0⟩ :: st.filter (·.id ≠ id))
+
+def activateW (w : Nat × Nat) (st : SState) (s : Sender) (frontierHeight : Nat) (id : Nat) : Option SState :=
+  if !authorisedW w s frontierHeight then none
+  else match find st id with
+    | none => none
+    | some sp =>
+      if sp.activated then none
+      else some (⟨id, true, frontierHeight + Gen.SporkMinHeightDelay⟩ :: st.filter (·.id ≠ id))
+
 /-- momentumStore.IsSporkActive for the store whose frontier height is `h` -/
 def isActive (st : SState) (h : Nat) (id : Nat) : Bool :=
   h != 1 && st.any (fun sp => sp.activated && sp.enf ≤ h && sp.id = id)
